@@ -138,9 +138,18 @@ def run(ctx):
                                     o[k] = (b"\x00" * len(o[k])) if isinstance(o[k], (bytes, bytearray)) else 0
                                 else:
                                     edit(o[k])
+                    # (a value that does not survive its own member -- text with an embedded terminator under a CString -- is outside
+                    #  the member's domain: what is parsed back is another value, and building it gives other bytes)
+                    try:
+                        orig = body["raw"]["value"] if "raw" in body else body["body"]["raw"]["value"]
+                        back = stale["raw"]["value"] if "raw" in stale else stale["body"]["raw"]["value"]
+                        indomain = V.enc(back) == V.enc(orig)
+                    except Exception:
+                        indomain = False
                     edit(stale)
-                    ib2, b2 = camp.build(prog, con, stale, b"", {})
-                    camp.sh.session("C14.samebytes", [ib, ib2])
+                    if indomain:
+                        ib2, b2 = camp.build(prog, con, stale, b"", {})
+                        camp.sh.session("C14.samebytes", [ib, ib2])
                 if fixed and p["res"]["ok"]:
                     # flip every bit of the covered region and of the digest (both lie after `off` header bytes)
                     # covered region + digest follow the `off` header bytes; their lengths come from the real objects
